@@ -8,6 +8,7 @@
 use anyhow::Result;
 use anyhow::bail;
 
+use crate::config::OutputStreamControl;
 use crate::diff::DiffLine;
 use crate::formatln;
 use crate::lossy_string;
@@ -17,6 +18,25 @@ use crate::newline::StringNewline;
 use crate::outcome::Outcome;
 use crate::output::ExitStatus;
 use crate::testcase::TestCaseError;
+
+/// Whether plain text, written as an expectation, would be read as an expression
+/// with a modifier (` (glob)`, ` (?)`, ..) or as an exit code (`[1]`)
+fn looks_like_modifier_or_exit_code(text: &str) -> bool {
+    let is_exit_code = text
+        .strip_prefix('[')
+        .and_then(|text| text.strip_suffix(']'))
+        .is_some_and(|code| !code.is_empty() && code.bytes().all(|byte| byte.is_ascii_digit()));
+    let is_modifier = text.rfind('(').is_some_and(|start| {
+        text[start + 1..].strip_suffix(')').is_some_and(|inner| {
+            let inner = inner.strip_suffix(['*', '+', '?']).unwrap_or(inner);
+            text[..start].ends_with(char::is_whitespace)
+                && inner
+                    .chars()
+                    .all(|ch| ch.is_ascii_lowercase() || ch == '-')
+        })
+    });
+    is_exit_code || is_modifier
+}
 
 pub(super) trait OutcomeTestGenerator {
     fn generate_testcase(&self) -> Result<String>;
@@ -35,6 +55,40 @@ impl Outcome {
             ))
         });
         generated
+    }
+
+    /// Renders a line of output as the expectation that matches exactly that
+    /// line when it is parsed back from a test document
+    fn generate_expectation_line(&self, line: &[u8]) -> String {
+        let content = line.trim_newlines();
+        let escaped = self.escaping.has_unprintable(content);
+        let mut expectation = self.escaping.escaped_expectation(content);
+        if escaped {
+            // the escaped kind ignores the line ending, but strips a tailing ` (no-eol)`
+            if let Some(body) = expectation.strip_suffix(" (no-eol) (escaped)") {
+                expectation = format!("{body}\\x20(no-eol) (escaped)");
+            }
+        } else if !line.ends_with(b"\n") {
+            expectation.push_str(" (no-eol)");
+        } else if looks_like_modifier_or_exit_code(&expectation) {
+            // plain text that would be read as something else than plain text
+            expectation.push_str(" (equal)");
+        }
+
+        // a line that would be read as the start or the continuation of a shell
+        // expression must not start like one: write its first character escaped
+        if expectation.starts_with("$ ") || expectation.starts_with("> ") {
+            let rest = if escaped {
+                expectation[1..].to_string()
+            } else {
+                let text = String::from_utf8_lossy(content);
+                format!("{} (escaped)", text[1..].replace('\\', "\\\\"))
+            };
+            expectation = format!("\\x{:02x}{}", expectation.as_bytes()[0], rest);
+        }
+
+        expectation.push('\n');
+        expectation
     }
 
     fn generate_testcase_exit_code(&self) -> Option<String> {
@@ -74,18 +128,7 @@ impl OutcomeTestGenerator for Outcome {
                             }
                             DiffLine::UnexpectedLines { lines } => {
                                 for (_, line) in lines {
-                                    let suffix = if line.ends_with(b"\n") {
-                                        ""
-                                    } else {
-                                        " (no-eol)"
-                                    };
-                                    let line = formatln!(
-                                        "{}{}",
-                                        self.escaping
-                                            .escaped_expectation((&line[..]).trim_newlines()),
-                                        suffix
-                                    );
-                                    generated.push_str(&line)
+                                    generated.push_str(&self.generate_expectation_line(line))
                                 }
                             }
                             _ => continue,
@@ -101,11 +144,17 @@ impl OutcomeTestGenerator for Outcome {
                     expected: _,
                 } => {
                     let mut generated = self.generate_testcase_expression();
-                    let mut output = self.output.stdout.to_output_string(None, &self.escaping);
-                    if !output.is_empty() && !output.ends_with('\n') {
-                        output.push_str(" (no-eol)\n")
+
+                    // the output of the stream that the testcase is validated against
+                    let stream: &[u8] =
+                        if self.testcase.config.output_stream == Some(OutputStreamControl::Stderr) {
+                            (&self.output.stderr).into()
+                        } else {
+                            (&self.output.stdout).into()
+                        };
+                    for line in stream.split_at_newline() {
+                        generated.push_str(&self.generate_expectation_line(line))
                     }
-                    generated.push_str(&output);
                     generated.push_str(&formatln!("[{}]", *actual));
                     Ok(generated)
                 }
